@@ -201,7 +201,7 @@ func runC29(c *an.Ctx) {
 			c.Add(locks.Held(r).HasW(ll) && an.Path(r.Call.Value) == "$1", "R2", "RegisterHandler:replay-locked", r, "buffered lines are replayed to the new handler inside the same critical section", "lockset")
 			arg := r.Call.Args[0]
 			p := an.Path(arg)
-			if !strings.HasPrefix(p, "$0.logs[phi:i@") {
+			if !strings.HasPrefix(p, "$0.logs[phi@") {
 				c.Add(false, "R2", "RegisterHandler:replay-element", r, "the replayed value is an element of the ring (got "+p+")", "")
 				continue
 			}
@@ -298,7 +298,7 @@ func runC30(c *an.Ctx) {
 					var flag *ssa.Phi
 					for e, facts := range an.EdgeFacts(ht) {
 						for _, f := range facts {
-							if strings.HasPrefix(f.L, "phi:delTag@") && f.Op == "==" && f.R == "c:false" && an.Guarded(ht, oc, []an.Edge{e}) {
+							if strings.HasPrefix(f.L, "phi@") && f.Op == "==" && f.R == "c:false" && an.Guarded(ht, oc, []an.Edge{e}) {
 								if iff, ok := e.From.Instrs[len(e.From.Instrs)-1].(*ssa.If); ok {
 									flag, _ = iff.Cond.(*ssa.Phi)
 								}
@@ -312,7 +312,7 @@ func runC30(c *an.Ctx) {
 				}
 				c.Add(len(setCopies) == 1, "R1", "handleTags:set-copy-site", ht, "the set keys are copied into the new map", "call enumeration")
 				for _, sc := range setCopies {
-					c.Add(an.Path(an.CallOf(sc).Args[1]) == "local:req.Tags", "R1", "handleTags:set-copy-source", sc, "the set keys come from the request", "argument path")
+					c.Add(an.Path(an.CallOf(sc).Args[1]) == "local:tagsRequest.Tags", "R1", "handleTags:set-copy-source", sc, "the set keys come from the request", "argument path")
 					late := false
 					for _, oc := range oldCopies {
 						if an.Reaches(ht, sc, oc) {
@@ -503,8 +503,8 @@ func runC31(c *an.Ctx) {
 	an.Instrs(mc, func(in ssa.Instruction) {
 		if s, ok := in.(*ssa.Store); ok {
 			p := an.Path(s.Addr)
-			if strings.HasPrefix(p, "&local:result.") {
-				f := strings.TrimPrefix(p, "&local:result.")
+			if strings.HasPrefix(p, "&local:Config.") {
+				f := strings.TrimPrefix(p, "&local:Config.")
 				stores[f] = append(stores[f], s)
 			}
 		}
@@ -527,7 +527,7 @@ func runC31(c *an.Ctx) {
 			guardsOnB := func() bool {
 				for _, fct := range necessaryFacts(mc, s) {
 					if fct.L != bF && fct.R != bF {
-						if fct.L == "local:result."+f && fct.R == "c:nil" {
+						if fct.L == "local:Config."+f && fct.R == "c:nil" {
 							continue
 						}
 						return false
@@ -563,7 +563,7 @@ func runC31(c *an.Ctx) {
 			if ok {
 				sort.Slice(sts, func(i, j int) bool { return an.Dominates(sts[i], sts[j]) })
 				_, isMk := sts[0].Val.(*ssa.MakeSlice)
-				ok = isMk && an.Path(sts[1].Val) == "append(local:result."+f+",$0."+f+")" && an.Path(sts[2].Val) == "append(local:result."+f+",$1."+f+")" &&
+				ok = isMk && an.Path(sts[1].Val) == "append(local:Config."+f+",$0."+f+")" && an.Path(sts[2].Val) == "append(local:Config."+f+",$1."+f+")" &&
 					an.Dominates(sts[0], sts[1]) && an.Dominates(sts[1], sts[2])
 			}
 			c.Add(ok, "R2", "class:concat:"+f, mc, f+": a's entries then b's entries, appended to a freshly made slice", "store sequence")
@@ -600,10 +600,10 @@ func runC31(c *an.Ctx) {
 	aliasOfInput := func(v ssa.Value) bool {
 		// result.F where result.F was not (re)assigned a fresh value on every path
 		p := an.Path(v)
-		if !strings.HasPrefix(p, "local:result.") {
+		if !strings.HasPrefix(p, "local:Config.") {
 			return false
 		}
-		f := strings.TrimPrefix(p, "local:result.")
+		f := strings.TrimPrefix(p, "local:Config.")
 		in, _ := v.(ssa.Instruction)
 		for _, s := range stores[f] {
 			fresh := false
@@ -654,7 +654,7 @@ func runC31(c *an.Ctx) {
 	// the result is a copy
 	okCopy := false
 	an.Instrs(mc, func(in ssa.Instruction) {
-		if s, ok := in.(*ssa.Store); ok && an.Path(s.Addr) == "&local:result" && an.Path(s.Val) == "*$0" {
+		if s, ok := in.(*ssa.Store); ok && an.Path(s.Addr) == "&local:Config" && an.Path(s.Val) == "*$0" {
 			okCopy = true
 		}
 	})
@@ -671,7 +671,8 @@ func runC31(c *an.Ctx) {
 			if isPhi {
 				okAcc = accumulatorShape(acc, map[*ssa.Phi]bool{})
 			}
-			c.Add(okAcc && !strings.HasPrefix(an.Path(a[1]), "phi:result"), "R4", "fold:acc-first", call, "files are folded as MergeConfig(accumulated, next): earlier sources on the left", "argument shape (accumulator phi)")
+			second, secondIsPhi := a[1].(*ssa.Phi)
+			c.Add(okAcc && !(secondIsPhi && accumulatorShape(second, map[*ssa.Phi]bool{})), "R4", "fold:acc-first", call, "files are folded as MergeConfig(accumulated, next): earlier sources on the left", "argument shape (accumulator phi)")
 		}
 		okSort := len(an.CallsTo(rp, "sort.Sort", "sort.Slice", "sort.Strings", "slices.SortFunc")) >= 1
 		c.Add(okSort, "R4", "fold:sorted-dir", rp, "directory entries are sorted before they are merged", "call enumeration")
